@@ -128,15 +128,19 @@ StepNumber(st) ==
             ELSE p5
   IN IF IsAlnumU(At(p6 + 1)) THEN Fail(st, st.start) ELSE Emit(st, "Number", p0, p6, "text")
 
+\* inside a size declaration blanks, line breaks and line comments separate the parts
+RECURSIVE SkipBC(_)     \* first index >= i that is neither a blank nor inside a // comment (N + 1 if a comment runs to the end)
+SkipBC(i) == LET j == SkipIn(Blank4, i) IN
+             IF At(j) = 47 /\ At(j + 1) = 47 THEN (LET nl == FindIn({10}, j) IN IF nl = 0 THEN N + 1 ELSE SkipBC(nl)) ELSE j
 StepSize(st) ==
   LET a  == st.pos + 1                                   \* '[' consumed
-      b  == SkipIn(Blank4, a + 1) - 1
+      b  == SkipBC(a + 1) - 1
       h1 == IsDigit(At(b + 1))
-      c1 == IF h1 THEN SkipIn(Blank4, SkipIn(Digits, b + 1)) - 1 ELSE b
+      c1 == IF h1 THEN SkipBC(SkipIn(Digits, b + 1)) - 1 ELSE b
       dd == At(c1 + 1) = 46 /\ At(c1 + 2) = 46
-      d0 == IF dd THEN SkipIn(Blank4, c1 + 3) - 1 ELSE c1
+      d0 == IF dd THEN SkipBC(c1 + 3) - 1 ELSE c1
       h2 == dd /\ IsDigit(At(d0 + 1))
-      d1 == IF h2 THEN SkipIn(Blank4, SkipIn(Digits, d0 + 1)) - 1 ELSE d0
+      d1 == IF h2 THEN SkipBC(SkipIn(Digits, d0 + 1)) - 1 ELSE d0
   IN IF At(d1 + 1) = 93 /\ (h1 \/ h2) THEN Emit(st, "Size", st.pos, d1 + 1, "text") ELSE Fail(st, st.start)
 
 StepQuoted(st) ==
@@ -170,7 +174,13 @@ CountNL(i, acc) == IF i = 0 THEN acc ELSE CountNL(i - 1, IF input[i] = 10 THEN a
 LastNL(i) == IF i = 0 THEN 0 ELSE IF input[i] = 10 THEN i ELSE LastNL(i - 1)
 RawVal(t) == [i \in 1..(t.e - t.s) |-> input[t.s + i]]
 RECURSIVE DropSpace(_)
-DropSpace(s) == IF s = <<>> THEN <<>> ELSE (IF IsSpace(Head(s)) THEN <<>> ELSE <<Head(s)>>) \o DropSpace(Tail(s))
+\* the value of a size token: its characters without white space and without line comments
+DropSpace(s) == IF s = <<>> THEN <<>>
+                ELSE IF Len(s) >= 2 /\ s[1] = 47 /\ s[2] = 47
+                     THEN LET RECURSIVE ToNL(_)
+                              ToNL(t) == IF t = <<>> \/ Head(t) = 10 THEN t ELSE ToNL(Tail(t))
+                          IN DropSpace(ToNL(s))
+                ELSE (IF IsSpace(Head(s)) THEN <<>> ELSE <<Head(s)>>) \o DropSpace(Tail(s))
 Val(t) == IF t.typ = "Error" THEN <<>>
           ELSE IF t.typ = "EOF" THEN <<69, 79, 70>>
           ELSE IF t.typ \in {"StreamFunction", "WaitBit", "Direction", "DataItemType", "Bool"} THEN UpperSeq(t.s, t.e)
